@@ -251,6 +251,13 @@ func (r *Reporter) Finish(p *Program) int {
 		fmt.Printf("rule %-16s found=%d discharged=%d out_of_scope=%d exceptions=%d violations=%d floor=%d\n",
 			rule, st.Found, st.Discharged, st.OutOfScope, st.Exceptions, st.Violations, st.Floor)
 	}
+	if os.Getenv("LSVERIF_VERBOSE") != "" {
+		for _, o := range r.obls {
+			if strings.Contains(o.Key, os.Getenv("LSVERIF_VERBOSE")) {
+				fmt.Printf("obligation %s [%s] at %s: %s\n", o.Key, o.Status, o.Pos, o.Fact)
+			}
+		}
+	}
 	for _, o := range knownHits {
 		fmt.Printf("KNOWN-FINDING: property=%s %s [%s at %s]\n", r.Prop, known[o.Key], o.Key, o.Pos)
 	}
